@@ -346,6 +346,7 @@ type evalEvent struct {
 	Before  dmpSnap
 	After   dmpSnap
 	Ranking json.RawMessage
+	Done    bool // Evaluate returned (false = it panicked)
 }
 
 type trace struct {
@@ -480,6 +481,7 @@ func (m *monFunc) Evaluate(dmp *model.DecisionMakingParams) *model.AlternativesR
 		m.tr.yield()
 	}
 	r := m.inner.Evaluate(dmp)
+	e.Done = true
 	e.After = takeSnap(m.tr.method, dmp)
 	if r != nil {
 		e.Ranking, _ = json.Marshal(r)
@@ -609,6 +611,11 @@ func errClass(s string) string {
 		s = s[:90]
 	}
 	return s
+}
+
+// methodFailed: an in-domain request died inside the method's Evaluate (the biases before it all returned)
+func methodFailed(d decision) bool {
+	return !d.OK && d.Trace != nil && d.Trace.Eval != nil && !d.Trace.Eval.Done
 }
 
 func sortedStrings(xs []string) []string {
